@@ -549,6 +549,16 @@ mkfunc(struct decl *decl, char *name, struct type *t, struct scope *s)
 	return f;
 }
 
+static void
+delgoto(void *ptr)
+{
+	struct gotolabel *g = ptr;
+
+	if (!g->defined)
+		error(&tok.loc, "label '%s' is used but not defined", g->label->label.u.name);
+	free(g);
+}
+
 void
 delfunc(struct func *f)
 {
@@ -562,7 +572,7 @@ delfunc(struct func *f)
 		free(b->insts.val);
 		free(b);
 	}
-	mapfree(&f->gotos, free);
+	mapfree(&f->gotos, delgoto);
 	free(f);
 }
 
